@@ -87,6 +87,16 @@ def check(run):
     CR.check_compile_folds(run, cc.methods['compile'], dirs)
     CR.check_take(run, repo, repo.cls('torchclifford', 'CliffordLayer').methods['take'], False)
     CR.check_take(run, repo, cc.methods['take'], False)
+    # ---- copies are true copies in both packages; broadcast pairing of the polynomial product
+    from ..rules import effect
+    from .C17 import COPY_FIELDS
+    for cname, fields in COPY_FIELDS.items():
+        c = repo.find_cls('torchclifford', cname)
+        if c is not None and 'copy' in c.methods:
+            effect.check_copy(run, eff, c.methods['copy'], fields)
+    from .C01 import broadcast_layout, coef_product
+    broadcast_layout(run, repo)
+    coef_product(run, repo.func(K.TC_U, 'batch_dot'))
     # ---- signatures and classes of namesakes
     shared = []
     for m in repo.modules.values():
@@ -124,6 +134,8 @@ def check(run):
         live.check_function(run, repo, eff, f)
     # ---- R1 on the torch namesakes
     resolve.check_cone(run, repo, shared, 'torch namesakes')
+    run.floor('R4c', 7)
+    run.floor('R13.bcast', 8)
     run.floor('R8', 11)
     run.floor('R8.port', 6)
     run.floor('R12.port', 7)
